@@ -407,6 +407,10 @@ def jobs(tier, gen_dir):
         out.append(Job("c02/canary/" + k, HARNESS, "h_" + k, enforce=k, replace=rp, kernels=[k], kind="canary", loop_contracts=True,
                        defines={"CANARY_" + k: None, "C02_V": 2, "C02_T": 2, "C02_E": 2}, expect_fail=r"%s\.postcondition" % k, no_base_flags=True, timeout=600, object_bits=10,
                        backend="kissat"))
+    out.append(Job("c02/K_pdfs_hdr_stream_format", HARNESS_F, "h_K_pdfs_hdr_stream_format", enforce="K_pdfs_hdr_stream_format", kernels=["K_pdfs_hdr_stream_format"],
+                   flags=["--signed-overflow-check", "--bounds-check", "--pointer-check"], no_base_flags=True, min_obligations=10, timeout=600, backend="kissat", loop_contracts=True))
+    out.append(Job("c02/canary/K_pdfs_hdr_stream_format", HARNESS_F, "h_K_pdfs_hdr_stream_format", enforce="K_pdfs_hdr_stream_format", kernels=["K_pdfs_hdr_stream_format"], kind="canary",
+                   defines={"CANARY_K_hdr_stream_format": None}, expect_fail=r"K_pdfs_hdr_stream_format\.(postcondition|assertion)", no_base_flags=True, timeout=600, loop_contracts=True))
     return out
 
 
@@ -437,6 +441,15 @@ def param_summary(tier):
     return {"(num_views, num_tangential_poss)": VT[tier], "bytes_per_element": ES[tier], "segments": "symbolic, <= 8, any permutation",
             "TOF bins": "symbolic, <= 8, any permutation", "storage order": "symbolic (4 supported + unsupported)"}
 
+
+# ---- number format of the projection-data header writer (same control-skeleton rule and typestate contract as C10's image header) ----
+from props.c10 import _stream_skeleton
+HARNESS_F = os.path.join(VERIF, "harness", "c02f.c")
+KERNELS_F = [dict(name="K_pdfs_hdr_stream_format", file="src/IO/interfile.cxx",
+                  cxx_name="write_basic_interfile_PDFS_header: number-format state of the header stream (control skeleton + stream operations)",
+                  func=r"write_basic_interfile_PDFS_header\(const string& header_file_name, const string& data_file_name, const ProjDataFromStream& pdfs\)",
+                  c_header="void K_pdfs_hdr_stream_format(void)", rules=[(r"\A.*\Z", _stream_skeleton("output_header"), 1)])]
+KERNELS += KERNELS_F
 
 # ---------------- native replay (real STIR libraries rebuilt from the working tree) ----------------
 from vlib import native
